@@ -308,3 +308,33 @@ def stream_is_read_to_eof_from_its_position(ctx):
 def _anc(n):
     from ..ir import ancestors
     return ancestors(n)
+
+
+@rule('C01.f', ['C01', 'C15'], floor=4)
+def copy_source_is_the_callers(ctx):
+    """Every copy task (single CopyObject and each part copy) gets exactly the caller's
+    copy_source - the dict HeadObject sized - and hands it to the client unchanged: a part
+    copied from a rebuilt source (e.g. without VersionId) copies bytes of another version."""
+    n = 0
+    for s_ in q.submits(ctx):
+        if s_.func.module.name != 'copies':
+            continue
+        for cl, ctor, owner in s_.task_ctors:
+            if cl is None or ctor is None or cl.name not in ('CopyObjectTask', 'CopyPartTask'):
+                continue
+            mk = q.resolve_local(owner, kwarg(ctor, 'main_kwargs'))
+            v = None
+            if isinstance(mk, ast.Dict):
+                for k, val in zip(mk.keys, mk.values):
+                    if isinstance(k, ast.Constant) and k.value == 'copy_source':
+                        v = val
+            n += 1
+            ok = v is not None and q.is_call_args_attr(owner, q.resolve_local(owner, v), 'copy_source')
+            ctx.ob(owner, f"{cl.name} 'copy_source' = call_args.copy_source", ok, f'the task copies from {norm(v) if v is not None else None}, not from the source the caller named (and HeadObject sized)')
+    ctx.need(n >= 2, f'only {n} copy task constructions found')
+    for qn, op in (('copies.CopyObjectTask._main', 'copy_object'), ('copies.CopyPartTask._main', 'upload_part_copy')):
+        f = ctx.func(qn)
+        cs = [c for f2, c, o in q.client_calls(ctx, op) if f2 is f]
+        ok = len(cs) == 1 and norm(kwarg(cs[0], 'CopySource')) == 'copy_source' and 'copy_source' in f.params \
+            and not [x for x in own_nodes(f.node) if isinstance(x, (ast.Assign, ast.AugAssign)) and 'copy_source' in {norm(t) for t in (x.targets if isinstance(x, ast.Assign) else [x.target])}]
+        ctx.ob(f, f'{op}(CopySource=copy_source) with the parameter as received', ok, 'the source handed to the task must be the source S3 copies from')
